@@ -461,7 +461,16 @@ def trigger(prog, rep):
     oko = order.get("new", 10**9) < order.get("connect", 0) and all(s.call.lineno < order.get("commit", 0) for s in creates) and order.get("commit", 10**9) < c.lineno and len(creates) == 2
     rep.check(oko, "TRIGGER", init.short, "ordering", "existence test before connect; tables created and committed before migrating", f"ordering broken (lines: {order}, creates {[s.call.lineno for s in creates]}, migrate {c.lineno}): e.g. testing for the file after connect() has created it means the migration never runs", init.loc(c))
     # name agreement
-    cm = prog.func("check_for_migration")
+    cm = prog.func("check_for_migration", "aw_datastore.migration")
+    # a function of the same name elsewhere in the package (what `from aw_datastore import check_for_migration` then finds) must
+    # hand every call on to the real one: a guard kept per process (seen storage ids, a flag) skips the second profile's store
+    from ..cfg import cfg_of as _cfg_of
+
+    for w_ in [f_ for f_ in prog.funcs.values() if f_.name == "check_for_migration" and f_ is not cm and f_.mod.name.startswith("aw_datastore")]:
+        g_ = _cfg_of(w_)
+        fw_ = {g_.node_of(c_) for c_ in prog.all_calls(w_) if norm(c_.func).split(".")[-1] == "check_for_migration" and c_.args and isinstance(c_.args[0], ast.Name) and c_.args[0].id in w_.params}
+        okw, wit_ = g_.must_pass(g_.entry, fw_) if fw_ else (False, None)
+        rep.check(bool(okw), "TRIGGER", w_.short, "wrapper forwards every call", "every path calls migration.check_for_migration(datastore)", f"{w_.short} (what SqliteStorage.__init__ imports) can return without calling the migration: a store that is opened later in the same process (the other profile, a second data directory) is never migrated and stays empty, and because its file then exists the migration is not retried on the next start either", w_.loc())
     pw = prog.func("PeeweeStorage.__init__")
     fn_def = single_def(pw, "filename")
     if fn_def is None:
@@ -577,6 +586,10 @@ def check(prog, rep):
     from ..rules_commit import txn_free
 
     txn_free(prog, rep)
+    # the new store and the legacy store are two storage objects in one process: nothing is shared between instances
+    from ..rules_store import instance_state
+
+    instance_state(prog, rep)
     # "same instant, duration and data": what the legacy store decodes and the new store encodes (tables and scale constants)
     codec_sqlite(prog, rep)
     codec_peewee(prog, rep)
